@@ -48,6 +48,18 @@ func planFrame(o *common.Opts, raws []json.RawMessage) []item {
 		if err := json.Unmarshal(raw, &sc); err != nil {
 			common.Fatal("scenario %d: %v", i, err)
 		}
+		tiny := false
+		for _, f := range sc.Frames {
+			if f.Body > 0 && f.Body < 6 {
+				tiny = true
+			}
+		}
+		if tiny {
+			// a frame whose body is too short to be a message has no effect the client could be observed by over a
+			// socket (no pending call completes, no request is dispatched): those scenarios are the in-process
+			// leg's (cmd/frame), which sees what Read returns
+			continue
+		}
 		items = append(items, item{I: i, Raw: raw, Info: map[string]interface{}{"i": i, "sc": sc}})
 	}
 	// random long streams: sizes beyond TLC's shapes (several TCP segments, beyond getty's 4 KiB read buffer),
